@@ -455,7 +455,7 @@ pub fn child_main() -> ! {
 
 pub fn run_child(job: &ChildJob) -> Result<ChildOutput, String> {
     use std::os::unix::process::ExitStatusExt;
-    let exe = std::env::current_exe().map_err(|e| format!("current_exe: {e}"))?;
+    let exe = crate::core::runner::self_exe()?;
     let mut child = Command::new(exe)
         .arg("store-child")
         .stdin(Stdio::piped())
